@@ -300,6 +300,8 @@ def gen(rng, tier):
         else:
             rd = rand_bytes(rng, rng.randint(0, 40))
         yield f"{'v' if rng.random() < 0.7 else 'c'} {c} {t} {hx(rd)}"
+        if known_ct(c, t) and fmt_of(c, t).count("N") and rng.random() < 0.5:
+            yield f"c {c} {t} {hx(rd)}"          # name-bearing types: the split oracle too
     for _ in range(n):
         yield read_case(rng)
     # large RDLENGTHs / large RDATA (u16 limits)
@@ -337,14 +339,19 @@ CHECK = {
     "theorems": ["c18_validate_iff", "c18_validate_total", "c18_validate_err", "c18_validate_opaque",
                  "c18_read_total", "c18_read_iff", "c18_read_err", "c18_read_valid", "c18_read_uncompressed_partial",
                  "c18_oracle_valid_is_spec", "c18_oracle_read_is_spec",
-                 "c18_dispatch_validate", "c18_dispatch_read"],
+                 "c18_dispatch_validate", "c18_dispatch_read",
+                 "c18_components_partition", "c18_components_valid_total", "c18_components_total",
+                 "c18_dispatch_components", "c18_components_opaque", "c18_components_agrees", "c18_components_read_back", "c18_laid_out_uncompressed", "c18_components_read_back_ci",
+                 "c18_read_starts_with_prepare", "c18_read_usize_panic_iff", "c18_read_usize_fits",
+                 "c18_read_usize_in_message"],
     "allowed_axioms": [],
     "correspondence": {"impl_bin": "impl_c18", "extract": "Extract/ExC18.v", "driver": "run_c18.ml"},
     "gen": gen,
     "nontrivial": nontrivial,
     "classify": classify,
     "exhaustive": {"quick": False, "thorough": False},
-    "rule": ("ops v (Rdata::validate), r (Rdata::read), c (Rdata::components); exhaustive RDATA over the 8 significant "
+    "rule": ("ops v (Rdata::validate), r (Rdata::read), c (Rdata::components, oracle = the executable split of the RDATA along the "
+             "RFC 3597 §4 layout, spec_components); exhaustive RDATA over the 8 significant "
              "octets {0,1,2,3F,40,C0,FF,'a'} up to length 3 (thorough 4) for all 21 structured (class,type) combinations "
              "+ 12 opaque/unknown/other-class ones; exhaustive (cursor, RDLENGTH) pairs (incl. one past the end) over 6 "
              "fixed messages for the same 33 combinations; seeded valid RDATA built from the generator's own format table, "
@@ -362,12 +369,14 @@ CHECK = {
         "tools/gen/rdata.py re-extracts the TYPE/CLASS constants, the four `match rr_type` dispatchers of Rdata::{equals,validate,read,components} "
         "and the ComponentType arrays into Gen/RdataTables.v (line-anchored, fails loudly on an unknown handler expression)",
         "the hand-written bodies of the validators/readers in Model/RdataM.v (differentially tested, not derived); Model/NameWire.v and its C14 theorems for embedded names",
-        "the RFC formats as transcribed in Spec/RdataFormatS.v (reviewable: 20 lines)",
+        "the RFC formats as transcribed in Spec/RdataFormatS.v (reviewable: 20 lines); the RFC 3597 §4 compressible-type list and the "
+        "layout/split functions of Spec/RdataCompS.v",
         "not verified: Cow/Box allocation, the unsafe from_unchecked casts, Rust slice semantics as modelled",
     ],
     "assumptions": ["octets are < 256 (wf_bytes); RDLENGTH < 65536 (it is a u16)",
-                    "cursor + RDLENGTH does not overflow usize (the model computes in nat; a cursor within 65535 of usize::MAX "
-                    "makes the real code panic on `cursor + rdlength as usize`, see docs/C18.md)"],
+                    "cursor + RDLENGTH <= usize::MAX for the c18_read_* theorems stated on the nat model: c18_read_usize_panic_iff proves "
+                    "this is exactly the condition under which Rdata::read over a bounded usize does not panic and "
+                    "c18_read_usize_in_message that it holds for every cursor inside a message held in memory (what Reader passes)"],
 }
 
 MANIFEST = {
@@ -377,10 +386,14 @@ MANIFEST = {
                    "decoding inside the RDATA-truncated message, RFC 3597 §4 decompression set) prescribes r, hence only validated, "
                    "pointer-free RDATA; the dispatch tables are re-extracted from the source on every run and proved to select the RFC format. "
                    "The model is tied to the code by a differential run (~90k quick cases) and both executable spec oracles (proved equal to "
-                   "the relations) are evaluated on every implementation output."),
+                   "the relations) are evaluated on every implementation output. Rdata::components: for every class/type and octet string the "
+                   "components concatenate to the RDATA, their kinds are the layout RFC 3597 §4 gives (names of RFC 1035 types compressible, SRV/CH A "
+                   "uncompressible, everything else opaque) plus at most one remainder, the iterator never panics, never errs on valid RDATA, and "
+                   "equals an executable split oracle evaluated on every implementation output. The usize of the cursor is explicit: over a bounded "
+                   "usize the only panic of Rdata::read is the overflow of cursor + RDLENGTH, impossible for a cursor inside the message."),
     "level_note": ("The write->read half is proved at the RDATA level only (uncompressed encoding placed in a message reads back; components "
-                   "partition the RDATA); the compressing writer is C12/C13's. Trusted: Coq kernel, extraction, hand-written handler bodies "
+                   "partition the RDATA and are classified per RFC 3597 §4 — both proved); the compressing writer is C12/C13's. Trusted: Coq kernel, extraction, hand-written handler bodies "
                    "(differentially tested), the table extractor, the transcription of the RFC formats."),
-    "technique": "machine-checked proof in Coq (validation = RFC grammar; read total, sound and complete vs a decoding relation) + model/implementation correspondence check",
+    "technique": "machine-checked proof in Coq (validation = RFC grammar; read total, sound and complete vs a decoding relation; components partition) + model/implementation correspondence check",
     "design_ref": "DESIGN.md §4 C18",
 }
